@@ -304,6 +304,28 @@ def _positive_controls(ctx):
          "        for k in list(prev[lv].keys()):\n"
          "            res.append(rng.choice(5, 2))\n"
          "    out.create_dataset('r', data=res)\n", True),
+        # replace-if-larger into a table that outlives a hash-ordered
+        # loop: ties are decided by the visiting order
+        ('bad_overwrite_in_set_order',
+         "def f(paths, out_path):\n"
+         "    with h5py.File(out_path, 'a') as dst:\n"
+         "        for p in set(paths):\n"
+         "            with h5py.File(p, 'r') as src:\n"
+         "                better = np.where(src['n'][()] > dst['n'][()])[0]\n"
+         "                dst['n'][better] = src['n'][better]\n", True),
+        ('good_overwrite_in_sorted_order',
+         "def f(paths, out_path):\n"
+         "    with h5py.File(out_path, 'a') as dst:\n"
+         "        for p in sorted(set(paths)):\n"
+         "            with h5py.File(p, 'r') as src:\n"
+         "                better = np.where(src['n'][()] > dst['n'][()])[0]\n"
+         "                dst['n'][better] = src['n'][better]\n", False),
+        ('good_one_slot_per_element',
+         "def f(paths, out_path):\n"
+         "    with h5py.File(out_path, 'a') as dst:\n"
+         "        for p in set(paths):\n"
+         "            with h5py.File(p, 'r') as src:\n"
+         "                dst[p][0] = src['n'][0]\n", False),
     ]
     for name, src, expect in cases:
         fi = _fixture(src, 'f')
